@@ -125,7 +125,7 @@ func NewBuilder(targetDir string, fetcher PackageFetcher, registryClient Registr
 // If the returned diagnostics contains errors then the bundle is left in an
 // inconsistent state and must not be used for any other calls.
 func (b *Builder) AddRemoteSource(ctx context.Context, addr sourceaddrs.RemoteSource, depFinder DependencyFinder) Diagnostics {
-	if b.targetDir == "" {
+	if b.isClosed() {
 		// The builder has been closed, so cannot be modified further.
 		// This is always a bug in the caller, which should discard a builder
 		// as soon as it's been closed.
@@ -161,7 +161,7 @@ func (b *Builder) AddRemoteSource(ctx context.Context, addr sourceaddrs.RemoteSo
 // If the returned diagnostics contains errors then the bundle is left in an
 // inconsistent state and must not be used for any other calls.
 func (b *Builder) AddRegistrySource(ctx context.Context, addr sourceaddrs.RegistrySource, allowedVersions versions.Set, depFinder DependencyFinder) Diagnostics {
-	if b.targetDir == "" {
+	if b.isClosed() {
 		// The builder has been closed, so cannot be modified further.
 		// This is always a bug in the caller, which should discard a builder
 		// as soon as it's been closed.
@@ -225,11 +225,28 @@ func (b *Builder) Close() (*Bundle, error) {
 	return ret, nil
 }
 
+// isClosed reports whether the builder has been closed or has failed. The
+// answer can be out of date by the time it is used; resolvePending looks again
+// once it holds the lock.
+func (b *Builder) isClosed() bool {
+	b.mu.Lock()
+	defer b.mu.Unlock()
+	return b.targetDir == ""
+}
+
 // resolvePending depletes the queues of pending source artifacts, making sure
 // that everything required is present in the bundle directory, both directly
 // and indirectly.
 func (b *Builder) resolvePending(ctx context.Context) (diags Diagnostics) {
 	b.mu.Lock()
+	if b.targetDir == "" {
+		// Another call failed, or Close ran, after this call queued its work
+		// and before it got here. Without a target directory everything below
+		// would be written relative to the working directory and the default
+		// temporary directory.
+		b.mu.Unlock()
+		panic("use of closed sourcebundle.Builder")
+	}
 	defer func() {
 		// If anything we do here generates any errors then the bundle
 		// directory is in an inconsistent state and must not be used
